@@ -384,6 +384,8 @@ def every_packet_dispatched(ctx, P, pre):
                 for (tgt, atom, outcome) in switch_edges(P, f, b):
                     if isinstance(outcome, tuple) and outcome and outcome[0] == "not":
                         allowed.add((b, tgt))
+    # an allowed edge is one that gives the datagram up: from its target the decoder is out of reach
+    allowed = {(b, t_) for (b, t_) in allowed if db not in f.reachable(t_)}
     reach = f.reachable(0, removed_blocks=[db], removed_edges=allowed)
     early = [f.loc(r) for r in reach if f.term(r)["k"] == "return"]
     ok1 = not early and db in f.reachable(0, removed_edges=allowed)
@@ -421,9 +423,12 @@ def response_tail_always_runs(ctx, P, pre, want=("resolve", "addresses")):
         ctx.require(False, pre + ".anchor", f.name + "|add_or_update", f.loc(), "0 calls")
         return
     head = lift_to_inner_loop(f, calls[0][0])
-    skip = guard_edges(P, f, lambda atom, outcome, bb: atom[0] == "call" and method(strip_generics(atom[1])) == "is_empty" and outcome is True and
-                       not any(x[0] == "field" and (x[3] or "").endswith("Zeroconf") for x in walk(atom)))
+    def empties(*fields):
+        return guard_edges(P, f, lambda atom, outcome, bb: atom[0] == "call" and method(strip_generics(atom[1])) == "is_empty" and outcome is True and
+                           (not any(x[0] == "field" and (x[3] or "").endswith("Zeroconf") for x in walk(atom)) or
+                            any(expr_mentions_field(atom, fld, "Zeroconf") for fld in fields)))
     loops = f.loops()
+    skip = empties("service_queriers")      # nothing to resolve for when nobody browses
     if "resolve" in want:
         rs = calls_to(f, "Zeroconf::resolve_updated_instances")
         ok = len(rs) >= 1
@@ -434,6 +439,7 @@ def response_tail_always_runs(ctx, P, pre, want=("resolve", "addresses")):
                "every path from the caching loop to the end of handle_response calls resolve_updated_instances" if ok else
                "handle_response can end after the caching loop without resolve_updated_instances: records that completed an instance are cached "
                "but no ServiceResolved follows")
+    skip = empties("hostname_resolvers")
     if "addresses" in want:
         hs = [b for b, t in f.calls() if name_matches(cname(t), "service_daemon::call_hostname_resolution_listener")]
         ok = len(hs) >= 1
